@@ -11,13 +11,13 @@ CONSTANTS
   Byz = {z}
   W <- W4
   Thr = 2
-  Nodes <- ShapeY2
+  Nodes <- ShapeY
   ByzMax = TRUE
-  MaxNodes = 4
+  MaxNodes = 5
   MaxVotes = 4
   Monotone = FALSE
   RootVotes = FALSE
-  Variant = "geq"
+  Variant = "asis"
 INVARIANT FinalitySafety
 SYMMETRY Sym
 CHECK_DEADLOCK FALSE
